@@ -150,6 +150,20 @@ Proof.
     rewrite chunk64_concat by lia. unfold len. apply andb_true_iff. split; [|lia].
     apply chunk64_shape; [lia|]. intros ->. cbn in E. discriminate.
   - (* SNamed *) intros id s IH Hs v Hv. cbn [wfs wfv to_item sets_emitted no_indef_sites] in *. apply IH; assumption.
+  - (* SArrOpt *) intros fs IHfs o IHo Hs v Hv. cbn [wfs] in Hs. split_ands.
+    destruct v as [| | | | | | | | | |i v]; try discriminate.
+    destruct i as [|[|i]]; destruct v as [| | | | | |l| | | |]; try discriminate.
+    + cbn [wfv] in Hv. destruct (IHfs ltac:(assumption) l Hv) as (G1 & G2 & G3 & G4).
+      cbn [to_item sets_emitted no_indef_sites chunks_strict]. unfold lax, strict in *. cbn [canon_item3 orb andb].
+      repeat split; auto. intros Hn. apply andb_true_iff in Hn as [Hn1 Hn2]. auto.
+    + destruct l as [|x l]; [discriminate|]. cbn [wfv] in Hv. split_ands.
+      destruct (IHfs ltac:(assumption) l ltac:(assumption)) as (G1 & G2 & G3 & G4).
+      destruct (IHo ltac:(assumption) x ltac:(assumption)) as (O1 & O2 & O3 & O4).
+      assert (Snoc : forall (f : item -> bool) a b, forallb f a = true -> f b = true -> forallb f (a ++ [b]) = true).
+      { intros f a b Ha Hb. rewrite forallb_app, Ha. cbn [forallb]. rewrite Hb. reflexivity. }
+      cbn [to_item sets_emitted no_indef_sites chunks_strict]. unfold lax, strict in *. cbn [canon_item3 orb andb].
+      rewrite G3, O3. repeat split; try (apply Snoc; assumption).
+      intros Hn. apply andb_true_iff in Hn as [Hn1 Hn2]. apply Snoc; auto.
   - (* SNil *) intros _ l Hv. destruct l; [repeat split|discriminate].
   - (* SCons *) intros s IHs r IHr Hw l Hv. cbn [wfs_sl] in Hw. split_ands. destruct l as [|v t]; [discriminate|].
     cbn [wfv_sl] in Hv. split_ands.
